@@ -147,6 +147,112 @@ Theorem C02_fasta2_end_to_end :
 Proof. exact fasta2_end_to_end. Qed.
 Print Assumptions C02_fasta2_end_to_end.
 
+(* Round 6 — wrapped (multi-line) FASTA, MultiLineFastaBuffer (from_raw_buffer + get_data), files of any size.
+   A record is '>' name, then ANY list of sequence lines: no line at all (empty sequence), empty lines, lines of unequal
+   lengths, width 1, last line shorter or as long as the others.  Lines hold no LF / CR, a sequence line does not start with
+   '>'.  LF or CRLF (final line break present).  Then the line-end table, the scan for '>' after a line break (with the
+   marker the reader appends), the cut, line starts / ends, the CR adjustment decided from the first 10 line ends, the
+   header-line indices, lines per entry, the mask of sequence lines and their gluing give exactly: one row per record, name
+   = the header line without '>', sequence = the concatenation of the record's lines. *)
+Theorem C02_fasta_lines_end_to_end :
+  forall (crlf : bool) (recs : list fa_rec),
+    recs <> [] ->
+    (forall r, In r recs -> line_clean (fst r) /\ forall l, In l (snd r) -> line_clean l /\ hd0 l <> 62) ->
+    run Ffasta None (lay (eol_of crlf) (all_lines recs))
+    = Obs (len recs) [Col (map (fun r => CBytes (fst r)) recs); Col (map (fun r => CBytes (List.concat (snd r))) recs)] true.
+Proof. exact fasta_lines_end_to_end. Qed.
+Print Assumptions C02_fasta_lines_end_to_end.
+(* the Spec's layout (every sequence wrapped at one width w >= 1): the parsed table is the Spec's table *)
+Theorem C02_fasta_wrapped_end_to_end :
+  forall (crlf : bool) (w : Z) (recs : list (list (list Z))),
+    1 <= w -> recs <> [] ->
+    (forall r, In r recs -> line_clean (field r 0) /\ line_clean (field r 1) /\ ~ In 62 (field r 1)) ->
+    run Ffasta None (lay (eol_of crlf) (body_lines Ffasta w recs [])) = Obs (len recs) (spec_cols Ffasta None recs) true.
+Proof. exact fasta_wrapped_end_to_end. Qed.
+Print Assumptions C02_fasta_wrapped_end_to_end.
+(* ... and for EVERY layout the Spec produces (Corr.file_ok compares exactly this with the bytes given to the library): LF or
+   CRLF, with or without the final line break — in a CRLF file without it the reader appends a bare LF, so the last line has
+   no CR while the CR rule has fired on the first line; the per-line adjustment leaves that line whole. *)
+Theorem C02_fasta_spec_file_end_to_end :
+  forall (crlf final : bool) (w : Z) (recs : list (list (list Z))),
+    1 <= w -> recs <> [] ->
+    (forall r, In r recs -> line_clean (field r 0) /\ line_clean (field r 1) /\ ~ In 62 (field r 1)) ->
+    run Ffasta None (spec_file Ffasta w crlf final [] recs []) = Obs (len recs) (spec_cols Ffasta None recs) true.
+Proof. exact fasta_spec_file_end_to_end. Qed.
+Print Assumptions C02_fasta_spec_file_end_to_end.
+(* the offset arithmetic those two theorems are about is the arithmetic of multiline_buffer.py (regenerated on every run) *)
+Theorem C02_fasta_source_tie :
+  (forall p, gen_fa_marker = 62 /\ gen_fa_next p = m_fa_next p /\ gen_fa_cut p = m_fa_cut p)
+  /\ (forall p size, gen_fa_line_start p = m_fa_line_start p /\ gen_fa_last_end size = m_fa_last_end size
+                      /\ gen_fa_entry_line p = m_fa_entry_line p)
+  /\ (forall e c, gen_fa_cr_window = m_fa_cr_window /\ gen_fa_cr_probe e = m_cr_probe e /\ gen_fa_cr_elem_probe e = m_cr_probe e
+                   /\ gen_fa_cr_byte = m_cr_byte /\ gen_fa_cr_adjust e c = m_cr_adjust e c)
+  /\ (forall d nl, gen_fa_n_lines d = m_fa_n_lines d /\ gen_fa_total nl = m_fa_total nl /\ gen_fa_name_from = m_fa_name_from).
+Proof. exact (conj b_fa_scan (conj b_fa_lines (conj b_fa_cr b_fa_counts))). Qed.
+Print Assumptions C02_fasta_source_tie.
+
+(* Round 6 — GFF3 / wig: comment lines in the middle of the file (DelimitedBufferWithInernalComments, the repaired code).
+   A file is a list of groups (comment lines before the record, the record's fields) plus trailing comment lines `tr`;
+   comment_ok c : c starts with '#' and holds no LF / CR — TABs allowed, any number of consecutive comments, a bare "#";
+   row_ok r   : r has fields without TAB / LF / CR and its line does not start with '#'.  The first group has no comments
+   (a leading '#' block is the header the reader skips: theorems below take it as `hs`).  LF or CRLF.
+   Then: the delimiter scan that ignores TABs inside comment lines, the np.delete of the line break before every comment line
+   from the start delimiters and of the line break closing it from the end delimiters, the column count from the first line
+   break, reshape and CR adjustment give a table with one row per RECORD whose texts are exactly the records' fields. *)
+Theorem C02_ic_table_correct :
+  forall (f : format) (crlf : bool) (n : Z) (gs : list group) (tr : list (list Z)),
+    ic_format f = true ->
+    1 <= n -> gs <> [] -> groups_ok gs tr -> (forall g, In g gs -> len (snd g) = n) -> fst (hd ([], []) gs) = [] ->
+    let rows := map snd gs in
+    let file := lay (eol_of crlf) (body_lines f 0 rows (map fst gs ++ [tr])) in
+    exists t, ic_table file = Some t /\ t_data t = file /\ table_fields t = rows /\ len (t_starts t) = len rows
+              /\ (forall row s, In row (t_starts t) -> In s row -> 0 <= s)
+              /\ (forall row e, In row (t_ends t) -> In e row -> e < len file).
+Proof. exact ic_table_correct_lay. Qed.
+Print Assumptions C02_ic_table_correct.
+(* ... and that is the table DelimitedBuffer builds from the file with the comment lines removed *)
+Theorem C02_ic_table_same_as_stripped :
+  forall (crlf : bool) (n : Z) (gs : list group) (tr : list (list Z)),
+    1 <= n -> gs <> [] -> groups_ok gs tr -> (forall g, In g gs -> len (snd g) = n) -> fst (hd ([], []) gs) = [] ->
+    let rows := map snd gs in
+    exists t t', ic_table (lay (eol_of crlf) (body_lines Fgff 0 rows (map fst gs ++ [tr]))) = Some t
+                 /\ delim_table 9 (lay (eol_of crlf) (map (intercalate [9]) rows)) = Some t'
+                 /\ table_fields t = table_fields t' /\ table_fields t' = rows /\ len (t_starts t) = len (t_starts t').
+Proof. exact ic_table_same_as_stripped. Qed.
+Print Assumptions C02_ic_table_same_as_stripped.
+(* whole GFF3 / wig files (header block hs, then records with interleaved comments): one entry per record, and every
+   supported well-formed column is the Spec's column of the records alone (wig: all but the float column) *)
+Theorem C02_ic_columns :
+  forall (f : format) (crlf : bool) (hs : list (list Z)) (gs : list group) (tr : list (list Z)) (n : Z),
+    ic_format f = true ->
+    (forall h, In h hs -> hd0 h = 35 /\ ~ In 10 h) ->
+    gs <> [] -> 1 <= n -> groups_ok gs tr -> (forall g, In g gs -> len (snd g) = n) -> fst (hd ([], []) gs) = [] ->
+    let rows := map snd gs in
+    let file := lay (eol_of crlf) hs ++ lay (eol_of crlf) (body_lines f 0 rows (map fst gs ++ [tr])) in
+    exists t, run f None file = (let cols := run_cols f None t in
+                                 if eager_format f && existsb is_err cols then ObsErr else Obs (len rows) cols true)
+              /\ forall jt, col_wf rows n jt -> typed_col t (fst jt) (snd jt) = spec_col rows jt.
+Proof. exact ic_columns_run. Qed.
+Print Assumptions C02_ic_columns.
+(* GFF3 end to end: the parsed table is the Spec's table of the records; comment lines never become entries *)
+Theorem C02_gff_end_to_end :
+  forall (crlf : bool) (hs : list (list Z)) (gs : list group) (tr : list (list Z)),
+    (forall h, In h hs -> hd0 h = 35 /\ ~ In 10 h) ->
+    gs <> [] -> groups_ok gs tr -> (forall g, In g gs -> len (snd g) = 9) -> fst (hd ([], []) gs) = [] ->
+    let rows := map snd gs in
+    (forall jt, In jt (schema Fgff) -> col_wf rows 9 jt) ->
+    existsb is_err (spec_cols Fgff None rows) = false ->
+    run Fgff None (lay (eol_of crlf) hs ++ lay (eol_of crlf) (body_lines Fgff 0 rows (map fst gs ++ [tr])))
+    = Obs (len rows) (spec_cols Fgff None rows) true.
+Proof. exact gff_end_to_end. Qed.
+Print Assumptions C02_gff_end_to_end.
+(* the index arithmetic of those theorems is the arithmetic of delimited_buffers.py (regenerated on every run) *)
+Theorem C02_ic_source_tie :
+  forall d k i, gen_ic_probe d = m_ic_probe d /\ gen_ic_end_del k = m_ic_end_del k /\ gen_ic_sentinel = m_ic_sentinel
+                /\ gen_ic_start d = m_ic_start d /\ gen_ic_n_fields i = m_ic_n_fields i /\ gen_ic_cr_adjusts = ic_cr_adjusts.
+Proof. exact b_ic. Qed.
+Print Assumptions C02_ic_source_tie.
+
 (* SAM, LF or CRLF (CRLF since /repo 6bbd290).  The ragged table (records with different numbers of TAB-separated fields)
    denotes the eleven mandatory fields of every record (CR removed from the last one), record ends are taken before the
    CR adjustment, and the rest-of-line arithmetic yields the optional tags as written, without CR (empty when absent). *)
@@ -237,6 +343,83 @@ Theorem C02_info_string_spec :
     spec_info_cell (key, IString, lst) (intercalate [59] items) = Some (CBytes (found key (info_cells items d))).
 Proof. exact info_string_spec. Qed.
 Print Assumptions C02_info_string_spec.
+
+(* Round 6 — list-valued INFO keys (Number=A / R / G / '.'): the lookup runs with keep_sep=True (the value comes with the byte
+   after its item), the repaired _parse_split_fields drops that byte, splits on ',' and parses the items.  For every column of
+   well-formed INFO rows (same hypotheses as C02_info_lookup_correct) and ANY item parser: row by row the result is the list of
+   the parsed items of the key's value — as many as the value has, none for rows without the key, whatever keys surround it. *)
+Theorem C02_info_list_lookup_correct :
+  forall {A} (parser : list Z -> option A) (key : list Z) (crows : list (list fcell)),
+    (forall c, In c crows -> crow_ok c /\ forall p, In p c -> forall z, In z (key ++ [61]) -> z <> snd p) ->
+    (forall c, In c crows -> len (filter (has_prefix key) (map fst c)) <= 1) ->
+    (forall c, In c crows -> forall it, In it (list_items (found key c)) -> it <> []) ->
+    let rows := map flatten crows in
+    opt_bind (info_texts true (List.concat rows) key (item_table 0 rows)) (parse_split_cur parser)
+    = mapM (fun c => mapM parser (list_items (found key c))) crows.
+Proof. exact @info_list_lookup_correct. Qed.
+Print Assumptions C02_info_list_lookup_correct.
+(* Integer lists: element by element the value of the numeral *)
+Theorem C02_info_intlist_col_correct :
+  forall (key : list Z) (crows : list (list fcell)),
+    (forall c, In c crows -> crow_ok c /\ forall p, In p c -> forall z, In z (key ++ [61]) -> z <> snd p) ->
+    (forall c, In c crows -> len (filter (has_prefix key) (map fst c)) <= 1) ->
+    (forall c, In c crows -> forall it, In it (list_items (found key c)) -> numeral it = true) ->
+    let rows := map flatten crows in
+    info_col (List.concat rows) (item_table 0 rows) (key, IInteger, true)
+    = match mapM (fun c => mapM int_of_text (list_items (found key c))) crows with Some l => Col (map CInts l) | None => ColErr end.
+Proof. exact info_intlist_col_correct. Qed.
+Print Assumptions C02_info_intlist_col_correct.
+(* Float lists: which items belong to which row and how many is right; each item goes through the model's decimal reader
+   (the float VALUES stay correspondence-checked) *)
+Theorem C02_info_floatlist_col_correct :
+  forall (key : list Z) (crows : list (list fcell)),
+    (forall c, In c crows -> crow_ok c /\ forall p, In p c -> forall z, In z (key ++ [61]) -> z <> snd p) ->
+    (forall c, In c crows -> len (filter (has_prefix key) (map fst c)) <= 1) ->
+    (forall c, In c crows -> forall it, In it (list_items (found key c)) -> it <> []) ->
+    let rows := map flatten crows in
+    info_col (List.concat rows) (item_table 0 rows) (key, IFloat, true)
+    = match mapM (fun c => mapM str_to_float1 (list_items (found key c))) crows with Some l => Col (map CRats l) | None => ColErr end.
+Proof. exact info_floatlist_col_correct. Qed.
+Print Assumptions C02_info_floatlist_col_correct.
+(* and the Integer-list cell is what the specification reads off the INFO text *)
+Theorem C02_info_intlist_spec :
+  forall (key : list Z) (items : list (list Z)) (d : Z),
+    items <> [] -> (forall it, In it items -> ~ In 59 it) ->
+    spec_info_cell (key, IInteger, true) (intercalate [59] items)
+    = option_map CInts (mapM int_of_text (list_items (found key (info_cells items d)))).
+Proof. exact info_intlist_spec. Qed.
+Print Assumptions C02_info_intlist_spec.
+
+(* Round 6 — genotype code matrices (VCFGenotypeBuffer, PhasedVCFMatrixBuffer, PhasedHaplotypeVCFMatrixBuffer).  The library
+   encodes the three bytes found at the START offset of every sample cell.  On any table whose start and end rows have the same
+   shape, for every sample cell with at least three bytes those are the first three bytes of the cell's own text, so the matrix
+   is the encodings' code of each cell's GT, row by row and sample by sample. *)
+Theorem C02_geno_col_correct :
+  forall (f : format) (t : table) (rows : list (list (list Z))),
+    table_ok t rows -> map (@List.length Z) (t_starts t) = map (@List.length Z) (t_ends t) ->
+    (forall r, In r rows -> forall smp, In smp (skipn 9 r) -> 3 <= len smp) ->
+    geno_col f t = spec_geno_col f rows.
+Proof. exact geno_col_correct. Qed.
+Print Assumptions C02_geno_col_correct.
+(* the shape hypothesis holds for every table DelimitedBuffer builds (whatever the chunk) *)
+Theorem C02_delim_table_shape :
+  forall (sep : Z) (chunk : list Z) (t : table),
+    delim_table sep chunk = Some t -> map (@List.length Z) (t_starts t) = map (@List.length Z) (t_ends t).
+Proof. exact delim_table_shape. Qed.
+Print Assumptions C02_delim_table_shape.
+(* whole VCF files with a genotype matrix and undeclared INFO: fixed columns (POS-1), INFO text, and the code matrix *)
+Theorem C02_vcf_geno_end_to_end :
+  forall (f : format) (crlf : bool) (hs : list (list Z)) (rows : list (list (list Z))) (n : Z),
+    geno_format f = true ->
+    (forall h, In h hs -> hd0 h = 35 /\ ~ In 10 h) ->
+    rows <> [] -> 1 <= n ->
+    (forall r, In r rows -> len r = n /\ forall x, In x r -> clean x) ->
+    (forall jt, In jt (all_cols Fvcf) -> col_wf rows n jt) ->
+    (forall r, In r rows -> forall smp, In smp (skipn 9 r) -> 3 <= len smp) ->
+    hd0 (body_of crlf rows) <> 35 ->
+    run f None (lay (eol_of crlf) hs ++ body_of crlf rows) = Obs (len rows) (spec_cols f None rows) true.
+Proof. exact vcf_geno_end_to_end. Qed.
+Print Assumptions C02_vcf_geno_end_to_end.
 
 (* Genotype string matrix (VCFBuffer2 and every buffer built on _extract_genotypes): a sample cell's value is the text
    before ITS OWN first ':' (the GT sub-field) — whatever the width of the widest cell of the file (the window through
@@ -454,6 +637,79 @@ Example C02_nonvacuous_flag :
                 info_cells [unhex "47353d31"] 9; info_cells [unhex "2e"] 10]%string in
   has_flag (List.concat (map flatten crows)) (unhex "4735"%string) (item_table 0 (map flatten crows)) = [false; true; false; false].
 Proof. vm_compute. reflexivity. Qed.
+(* wrapped FASTA, CRLF: records with no sequence line, an empty line, lines of widths 1 / 3 / 2, an empty name; the
+   hypotheses of C02_fasta_lines_end_to_end hold (checked by computation) and the model returns the glued sequences *)
+Example C02_nonvacuous_fasta_lines :
+  let recs := [(unhex "7331", [unhex "41"; unhex "434754"; unhex "4e4e"]); (unhex "", []); (unhex "73332078", [unhex ""; unhex "54"])]%string in
+  forallb (fun r => forallb (fun c => negb ((c =? 10) || (c =? 13))) (fst r)
+                    && forallb (fun l => forallb (fun c => negb ((c =? 10) || (c =? 13))) l && negb (hd0 l =? 62)) (snd r)) recs = true
+  /\ run Ffasta None (lay (eol_of true) (all_lines recs))
+      = Obs 3 [Col [CBytes (unhex "7331"); CBytes []; CBytes (unhex "73332078")];
+               Col [CBytes (unhex "414347544e4e"); CBytes []; CBytes (unhex "54")]]%string true.
+Proof. vm_compute. split; reflexivity. Qed.
+(* the Spec's layout at width 3: sequence lengths 7 (last line shorter), 6 (exact multiple), 0, 1 *)
+Example C02_nonvacuous_fasta_wrapped :
+  let recs := [[unhex "61"; unhex "41434754414347"]; [unhex "62"; unhex "414347414347"]; [unhex "63"; unhex ""]; [unhex "64"; unhex "47"]]%string in
+  body_lines Ffasta 3 recs [] = [unhex "3e61"; unhex "414347"; unhex "544143"; unhex "47"; unhex "3e62"; unhex "414347"; unhex "414347";
+                                 unhex "3e63"; unhex "3e64"; unhex "47"]%string
+  /\ run Ffasta None (lay (eol_of false) (body_lines Ffasta 3 recs [])) = Obs 4 (spec_cols Ffasta None recs) true
+  /\ nth 1 (spec_cols Ffasta None recs) ColErr
+      = Col [CBytes (unhex "41434754414347"); CBytes (unhex "414347414347"); CBytes []; CBytes (unhex "47")]%string.
+Proof. vm_compute. repeat split; reflexivity. Qed.
+(* wig, CRLF: "#a<TAB>b" and "#" between the records, a comment after the last record: the table has the two records *)
+Example C02_nonvacuous_ic_table :
+  let gs := [([], [unhex "63"; unhex "31"; unhex "35"; unhex "322e35"]);
+             ([unhex "23610962"; unhex "23"], [unhex "6332"; unhex "3130"; unhex "3230"; unhex "37"])]%string in
+  let tr := [unhex "230909"]%string in
+  let file := lay (eol_of true) (body_lines Fwig 0 (map snd gs) (map fst gs ++ [tr])) in
+  file = unhex "630931093509322e350d0a236109620d0a230d0a633209313009323009370d0a2309090d0a"%string
+  /\ forallb (fun g => forallb (fun c => (hd0 c =? 35) && forallb (fun x => negb ((x =? 10) || (x =? 13))) c) (fst g)
+                        && negb (hd0 (hd [] (snd g)) =? 35)
+                        && forallb (forallb (fun x => negb ((x =? 9) || (x =? 10) || (x =? 13)))) (snd g)) gs = true
+  /\ option_map table_fields (ic_table file) = Some (map snd gs)
+  /\ run Fwig None file = Obs 2 [Col [CBytes (unhex "63"); CBytes (unhex "6332")]; Col [CInt 1; CInt 10]; Col [CInt 5; CInt 20];
+                                  Col [CRat 25 10; CRat 7 1]]%string true.
+Proof. vm_compute. repeat split; reflexivity. Qed.
+(* GFF3, LF, header line, consecutive comments (one with TABs) between the records: the hypotheses of C02_gff_end_to_end that
+   are decidable hold, and the model returns the Spec's columns *)
+Example C02_nonvacuous_gff :
+  let gs := [([], [unhex "63"; unhex "2e"; unhex "67"; unhex "35"; unhex "3132"; unhex "2e"; unhex "2b"; unhex "30"; unhex "49443d31"]);
+             ([unhex "23230978"; unhex "2379"], [unhex "6332"; unhex "73"; unhex "65"; unhex "313030"; unhex "37"; unhex "2e35"; unhex "2d"; unhex "2e"; unhex ""])]%string in
+  let rows := map snd gs in
+  forallb (fun jt => (0 <=? fst jt) && (fst jt <? 9) && forallb (fun r => wf_field (snd jt) (field r (fst jt))) rows) (schema Fgff) = true
+  /\ run Fgff None (lay (eol_of false) [unhex "2323676666"%string] ++ lay (eol_of false) (body_lines Fgff 0 rows (map fst gs ++ [[]])))
+      = Obs 2 (spec_cols Fgff None rows) true
+  /\ nth 3 (spec_cols Fgff None rows) ColErr = Col [CInt 5; CInt 100].
+Proof. vm_compute. repeat split; reflexivity. Qed.
+(* Integer list key AC with rows "MAC=7;AC=1,+20,3" / "." / "AC=5;ACX=9,9" (last byte TAB / TAB / LF): lists [1;20;3], [], [5] *)
+Example C02_nonvacuous_intlist :
+  let crows := [info_cells [unhex "4d41433d37"; unhex "41433d312c2b32302c33"] 9; info_cells [unhex "2e"] 9;
+                info_cells [unhex "41433d35"; unhex "4143583d392c39"] 10]%string in
+  let key := unhex "4143"%string in
+  let rows := map flatten crows in
+  forallb (fun c => len (filter (has_prefix key) (map fst c)) <=? 1) crows = true
+  /\ forallb (fun c => forallb numeral (list_items (found key c))) crows = true
+  /\ info_col (List.concat rows) (item_table 0 rows) (key, IInteger, true) = Col [CInts [1; 20; 3]; CInts []; CInts [5]]
+  /\ mapM (fun c => mapM int_of_text (list_items (found key c))) crows = Some [[1; 20; 3]; []; [5]].
+Proof. vm_compute. repeat split; reflexivity. Qed.
+(* a CRLF VCF with two samples, cells "0/1:35" and "./." / "1|1" and "0|2:9:9": unphased-genotype codes; decidable hypotheses
+   of C02_vcf_geno_end_to_end checked by computation *)
+Example C02_nonvacuous_geno_codes :
+  let rows := [[unhex "63"; unhex "35"; unhex "2e"; unhex "41"; unhex "54"; unhex "2e"; unhex "2e"; unhex "44503d33"; unhex "4754"; unhex "302f313a3335"; unhex "2e2f2e"];
+               [unhex "6332"; unhex "313030"; unhex "7273"; unhex "47"; unhex "43"; unhex "39"; unhex "50415353"; unhex "2e"; unhex "4754"; unhex "317c31"; unhex "307c323a393a39"]]%string in
+  forallb (fun jt => (0 <=? fst jt) && (fst jt <? 11) && forallb (fun r => wf_field (snd jt) (field r (fst jt))) rows) (all_cols Fvcf) = true
+  /\ forallb (fun r => forallb (fun smp => 3 <=? len smp) (skipn 9 r)) rows = true
+  /\ run Fvcfgt None (lay (eol_of true) [unhex "2323"%string] ++ body_of true rows) = Obs 2 (spec_cols Fvcfgt None rows) true
+  /\ nth 8 (spec_cols Fvcfgt None rows) ColErr = Col [CInts [31; -115]; CInts [61; 26]]
+  /\ nth 1 (spec_cols Fvcfgt None rows) ColErr = Col [CInt 4; CInt 99].
+Proof. vm_compute. repeat split; reflexivity. Qed.
+(* CRLF without the final line break, width 2: ">a CRLF AC CRLF G CRLF >b CRLF T" — the last line has no CR *)
+Example C02_nonvacuous_fasta_nofinal :
+  let recs := [[unhex "61"; unhex "414347"]; [unhex "62"; unhex "54"]]%string in
+  spec_file Ffasta 2 true false [] recs [] = unhex "3e610d0a41430d0a470d0a3e620d0a540a"%string
+  /\ run Ffasta None (spec_file Ffasta 2 true false [] recs []) = Obs 2 (spec_cols Ffasta None recs) true
+  /\ nth 1 (spec_cols Ffasta None recs) ColErr = Col [CBytes (unhex "414347"); CBytes (unhex "54")]%string.
+Proof. vm_compute. repeat split; reflexivity. Qed.
 (* a whole BED6 file through the whole model *)
 Example C02_nonvacuous_run :
   run Fbed6 None (unhex "2368647209780a63317431093509313209610931302b0a"%string) <> ObsErr.
